@@ -91,4 +91,26 @@ def addrs : Val → List Nat
   | .scons h t => addrs h ++ addrs t
   | _ => []
 
+/-- heap objects with their contents: (kind tag, address, content) -/
+def objs : Val → List (Nat × Nat × Val)
+  | .ptr a v => (0, a, v) :: objs v
+  | .slice a _ es => (1, a, es) :: objs es
+  | .arr es => objs es
+  | .struct fs => objs fs
+  | .map a es => (2, a, es) :: objs es
+  | .pair k v => objs k ++ objs v
+  | .scons h t => objs h ++ objs t
+  | _ => []
+
+/-- one address never denotes two different contents (slices that share a backing array may be
+views of different length, so for them one content must be a prefix of the other) -/
+def prefixOf : Val → Val → Bool
+  | .snil, _ => true
+  | .scons a r, .scons b s => a == b && prefixOf r s
+  | _, _ => false
+
+def heapConsistent (os : List (Nat × Nat × Val)) : Bool :=
+  os.all fun (k, a, v) => os.all fun (k', a', v') =>
+    !(k == k' && a == a') || (if k == 1 then prefixOf v v' || prefixOf v' v else v == v')
+
 end Goderive
